@@ -150,6 +150,12 @@ for (n, tier) in [("big_4096_to_100", "quick"), ("big_4096_to_0", "thorough"), (
             what="resize_stream across / at the 4096-byte cutoff on a file with a large stream in regular sectors and a small stream in the mini stream: placement by the cutoff (a 4096-byte stream is regular), chain length == ceil(size/sector), kept bytes kept, gained bytes zero (stale slack of the last mini sector must not migrate), released sectors FREE, the other stream untouched",
             bounds="old/new length concrete per instance (4095/4096/4097/5000/100/0/4200); first and last sector of the large stream, the small stream and its slack symbolic",
             functions=STOR_F + MINI_F + ALLOC_F, assumes=[A_SHAPE, A_IOCOPY])
+for (n, tier, props) in [("big_write_4096_mid", "quick", ["C01", "C03", "C07"]), ("big_write_4096_append", "thorough", ["C01", "C03", "C07"]),
+                         ("big_write_5000_tail", "thorough", ["C01", "C03", "C07"]), ("big_write_migrate", "quick", ["C01", "C03", "C18", "C15"]),
+                         ("big_5000_to_5100", "quick", ["C08", "C01", "C03"]), ("big_5000_to_5120", "thorough", ["C08", "C01", "C03"]), ("big_5000_to_5200", "thorough", ["C08", "C01", "C03"])]:
+    harness(n, props=props, tier=tier, timeout=3600, mem=12, fs=16384, stubs=[FMT, STUB_COPY],
+            what="write_data_to_stream / resize_stream at the 4096 cutoff (h_big2.rs): a write into a regular stream of exactly 4096 bytes stays in its regular chain and leaves the MiniFAT and the small stream alone; a write starting inside a small stream that carries it past the cutoff keeps the prefix and stores every written byte (case 2b); a regular stream grown inside its last sector reads zero although the slack is arbitrary",
+            bounds="lengths/offsets concrete per instance; first/last sector of the large stream, slack, written data symbolic (middle of a 4050-byte write concrete)", functions=STOR_F + MINI_F, assumes=[A_SHAPE, A_IOCOPY])
 for (n, tier) in [("big_remove_4096", "quick"), ("big_remove_4097", "thorough")]:
     harness(n, props=["C01", "C07", "C15", "C03"], tier=tier, timeout=5400, mem=12, fs=16384, stubs=[FMT, STUB_COPY, STUB_UP, "OsStr :: to_str"],
             what="CompoundFile::remove_stream of a stream of exactly 4096 (4097) bytes: its regular chain is freed, the MiniFAT and the small stream's mini chain are untouched, the entry is released, lookups agree",
@@ -162,6 +168,10 @@ for (n, tier) in [("open_valid_permissive", "thorough"), ("open_valid_strict", "
     harness(n, props=["C04", "C02", "C16", "C05", "C17"], tier=tier, timeout=7200, mem=16, fs=8192, stubs=[FMT, STUB_UP],
             what="open_internal on a valid file laid out unlike this crate's writer (FAT in sector 1, directory chain 4 -> 0 so that the physically last sector's FAT cell is 0, red nodes, unallocated slots): accepted, caches (FAT, MiniFAT, all 8 directory entries) equal what the image encodes, lookups by other letter case, metadata and the bytes of a fragmented mini stream read back",
             bounds="6-sector v3 image; mini stream contents and metadata symbolic", functions=OPEN_F, assumes=[A_SHAPE, A_UPTABLE])
+for (n, tier) in [("open_uncovered_reuse", "thorough"), ("open_uncovered_grow", "thorough")]:
+    harness(n, props=["C11", "C02", "C03", "C15"], tier=tier, timeout=7200, mem=16, fs=8192, stubs=[FMT, STUB_COPY, STUB_UP],
+            what="open_internal on a file with MORE sectors (131) than its single FAT sector covers (128): if accepted, the cached FAT is not longer than what the FAT sectors can record, no uncovered sector is on the free list, and allocate_sector afterwards works - reuse of a free sector below the coverage / growth by FAT sector 128 over the unowned trailing sectors, written through",
+            bounds="one layout (open_image) with a 131-sector file length; hole between sector 8 and sector 126 must not be touched; tail sectors arbitrary", functions=OPEN_F + ["Allocator::allocate_sector", "Allocator::append_fat_sector", "Allocator::set_fat", "Sectors::init_sector"], assumes=[A_SHAPE, A_IOCOPY, A_UPTABLE])
 # ---------------------------------------------------------------- C11: write-path walks from unvalidated start sectors (h_walks.rs)
 _WALK_Q = ["c11_free_mini_chain_far", "c11_free_mini_after_past_end", "c11_extend_mini_at_free", "c11_extend_chain_freemark",
            "c11_extend_chain_at_free", "c11_free_mini_chain_inside"]
@@ -176,6 +186,18 @@ for _op in ["free_mini_chain", "free_mini_after", "extend_mini", "extend_chain"]
 harness("mini_next_total", props=["C11", "C05", "C04"], timeout=600, mem=6, stubs=[FMT],
         what="MiniAllocator::next_mini_sector(id) for ANY u32 id over ANY four MiniFAT cells: never panics, Ok only for in-range ids with a valid successor and then equal to the cell, otherwise an error",
         bounds="MiniFAT of 4 fully symbolic u32 cells, id: all u32", functions=["MiniAllocator::next_mini_sector"], assumes=[])
+harness("mini_begin_at_128", props=["C15", "C02", "C03"], tier="quick", timeout=3600, mem=12, fs=16384, stubs=[FMT, STUB_COPY],
+        what="begin_mini_chain when the cached MiniFAT holds exactly 128 entries (one v3 MiniFAT sector's worth) while the MiniFAT chain already has two sectors (trailing mini sectors were released earlier): the chain and the header count stay at two, the new cell is written through into the second MiniFAT sector, the file grows only by the mini stream's one sector",
+        bounds="one layout: 20-sector v3 image, 128 one-sector mini chains", functions=MINI_F, assumes=[A_SHAPE, A_IOCOPY])
+# ---------------------------------------------------------------- C13/C02/C17: fault inside a directory entry update (h_dfault.rs)
+for (_n, _t) in [("at0", "quick"), ("at1", "thorough"), ("at2", "thorough"), ("at3", "quick"), ("at9", "thorough"), ("at20", "thorough")]:
+    harness("c13_dirent_fault_" + _n, props=["C13", "C02", "C17"], tier=_t, timeout=1800, mem=8, stubs=[FMT],
+            what="with_dir_entry_mut (last step of every write-back, of set_len and of every setter) with the k-th backend seek/write failing: the error surfaces; after the same update is retried without fault and returns Ok, the 128 bytes of the entry in the file (own encoder) equal the entry in memory - an Ok must be durable",
+            bounds="fault position k concrete per instance; new start sector / length / state bits arbitrary (symbolic); 4-entry v3 directory", functions=["MiniAllocator::with_dir_entry_mut", "Directory::with_dir_entry_mut", "Directory::write_dir_entry", "DirEntry::write_to", "Chain::write"], assumes=[A_SHAPE])
+for _k in range(9):
+    harness("c13_mini_first_fault_at%d" % _k, props=["C13", "C02"], tier=("quick" if _k in (3, 6) else "thorough"), timeout=1800, mem=8, stubs=[FMT, STUB_COPY],
+            what="begin_mini_chain on a fresh file (no MiniFAT yet) with the k-th backend seek/write failing, then retried without fault: the error surfaces; if the retry returns Ok the header names the MiniFAT sector the allocator uses, the MiniFAT cell and the root entry are in the file (an Ok after a failed attempt must leave a file that reopens)",
+            bounds="fault position k concrete per instance (0..8); 5-sector v3 image", functions=MINI_F + ["Allocator::allocate_sector", "Sectors::init_sector"], assumes=[A_SHAPE, A_IOCOPY])
 # ---------------------------------------------------------------- C11: entries whose (start sector, length) disagree with their chain (h_incons.rs)
 _INCONS = [("eoc100_write0", "quick"), ("eoc100_write_at_len", "thorough"), ("eoc100_resize50", "quick"), ("eoc100_resize200", "thorough"), ("eoc100_resize0", "thorough"),
            ("eoc100_read", "thorough"), ("eoc5000_write0", "thorough"), ("eoc5000_resize100", "thorough"),
@@ -187,6 +209,14 @@ for (_n, _t) in _INCONS:
     harness("c11_incons_" + _n, props=["C11"], tier=_t, timeout=1800, mem=8, stubs=[FMT, STUB_COPY],
             what="read_data_from_stream / write_data_to_stream / resize_stream on a stream entry whose start sector and length disagree with the chains (class and operation in the name: a length without a chain, a length beyond the chain, a 'regular' length over a mini start, a chain without a length): the call returns Ok or Err - no failed debug assertion, no overflow, no index panic, terminates; a length with no chain behind it is refused",
             bounds="4-sector v3 image, MiniFAT [1, EOC, EOC]; entry class, offset and size concrete per instance; data symbolic", functions=STOR_F + MINI_F, assumes=[A_SHAPE, A_IOCOPY])
+for (_n, _t) in [("regshort_resize4500", "quick"), ("regshort_resize5100", "thorough"), ("regshort_resize100", "thorough"), ("regshort_write_in", "thorough"),
+                 ("regshort_write_beyond", "thorough"), ("regshort_read", "thorough")]:
+    harness("c11_incons_" + _n, props=["C11"], tier=_t, timeout=1800, mem=8, stubs=[FMT, STUB_COPY],
+            what="read / write / resize of a REGULAR stream whose length field (5000) claims more than its one-sector chain holds: returns Ok or Err, no overflow / failed assertion / index panic, terminates",
+            bounds="5-sector v3 image; offsets and sizes concrete per instance; data symbolic", functions=STOR_F, assumes=[A_SHAPE, A_IOCOPY])
+harness("c11_root_cycle_append", props=["C11"], tier="quick", timeout=1800, mem=8, stubs=[FMT, STUB_COPY], unwind_is_property=True,
+        what="allocate_mini_sector when the mini stream must grow and the root entry's sector chain is a cycle (sector 3 -> 3, which the FAT validator accepts): the cycle is noticed and an error returned; termination = unwinding assertion",
+        bounds="5-sector v3 image, MiniFAT of 8 cells, no free mini sector", functions=MINI_F + ["Chain::new", "Allocator::extend_chain"], assumes=[A_SHAPE, A_IOCOPY])
 for (_n, _t) in [("c11_resize_u64max", "quick"), ("c11_resize_u64max_m100", "thorough"), ("c11_resize_u64max_m511", "thorough"), ("c11_write_data_overflow", "quick")]:
     harness(_n, props=["C11", "C06"], tier=_t, timeout=1800, mem=8, stubs=[FMT, STUB_COPY],
             what="resize_stream / write_data_to_stream on a VALID small stream with a new length / end offset next to u64::MAX: refused with an error instead of overflowing in Chain::set_len or in the length arithmetic",
@@ -369,14 +399,14 @@ _CQ = seqs.quick()
 QUICK.update({
     "C01": ["c09_cmp_ascii_2_2", "c09_cmp_sigma_1_2"] + _RM[:4] + _INS[:1] + _LOOK[:1] +
            ["stor_read_cross", "stor_write_mid", "api_ref_parent_is_stream", "api_ref_new_stream_exists", "big_remove_4096"],
-    "C02": ["alloc_begin_free13", "alloc_extend_nofree", "alloc_free_chain3", "mini_begin_reuse", "mini_free_tail2",
+    "C02": ["alloc_begin_free13", "alloc_extend_nofree", "alloc_free_chain3", "mini_begin_reuse", "mini_begin_at_128", "mini_free_tail2", "c13_dirent_fault_at3", "open_valid_permissive",
             "dir_rm_n4_s8_v3", "dir_ins_n3_s0_g1", "dirent_rt_storage_2", "hdr_roundtrip", "api_setters", "difat_second_sector",
             "cache_c_write_flush_write_read_min"],
     "C03": ["alloc_begin_nofree", "alloc_free_after3", "mini_begin_after_empty", "mini_free_cross", "mini_free_all",
             "dir_rm_n4_s8_v3", "dir_rm_n3_s2_v2", "dirent_unallocated_blank", "stor_resize_to_0", "big_5000_to_4096",
             "big_4096_to_100", "difat_first_sector", "difat_second_sector", "hdr_roundtrip"],
     "C04": ["c09_cmp_ascii_2_2", "c09_cmp_sigma_2_2", "alloc_next_total", "chain_new_total"] + _LOOK +
-           ["dirent_parse_stream_v3", "dirent_parse_root_v3", "stor_read_cross", "alloc_validate_rel"],
+           ["dirent_parse_stream_v3", "dirent_parse_root_v3", "stor_read_cross", "alloc_validate_rel", "open_valid_permissive"],
     "C05": ["alloc_next_total", "chain_new_total", "alloc_validate_rel", "dirent_parse_storage_v3", "dirent_parse_badtype_v3",
             "dirent_parse_stream_v3"],
     "C06": ["c06_seek_total", "c11_write_total", "c11_resize_u64max", "stor_read_clip"] + _CQ,
@@ -389,15 +419,15 @@ QUICK.update({
             "cache_c_refused_seeks_change_nothing_min"],
     "C11": ["alloc_next_total", "chain_new_total", "mini_next_total"] + _WALK_Q +
            ["c11_incons_eoc100_write0", "c11_incons_eoc100_resize50", "c11_incons_short300_write_beyond", "c11_incons_reg_in_mini_resize0",
-            "c11_resize_u64max", "c11_write_data_overflow", "c11_write_total"],
+            "c11_resize_u64max", "c11_write_data_overflow", "c11_write_total", "c11_incons_regshort_resize4500", "c11_root_cycle_append"],
     "C12": ["stor_read_fault_seek0", "stor_read_fault_seek1", "stor_read_fault_read0", "stor_read_cross"] + [n for n in seqs.quick_faults() if "c12" in n],
-    "C13": ["c13_free_fault_at0", "c13_free_fault_at2", "c13_free_fault_at4", "cache_c_write_flush_write_read_min"] + [n for n in seqs.quick_faults() if "c13" in n],
+    "C13": ["c13_free_fault_at0", "c13_free_fault_at2", "c13_free_fault_at4", "c13_dirent_fault_at0", "c13_dirent_fault_at3", "c13_mini_first_fault_at3", "c13_mini_first_fault_at6", "cache_c_write_flush_write_read_min"] + [n for n in seqs.quick_faults() if "c13" in n],
     "C14": ["c14_lookups", "c14_iter_root", "c14_iter_walk", "c14_iter_storage", "c14_stream_rw", "c14_stream_setlen", "c14_stream_big_window"],
     "C15": ["alloc_begin_free13", "alloc_extend_free3", "alloc_free_chain3", "alloc_free_after3", "mini_begin_reuse",
-            "mini_begin_after_empty", "mini_free_tail2", "mini_free_all", "dir_ins_n3_s0_g1", "big_4096_to_100"],
+            "mini_begin_after_empty", "mini_begin_at_128", "mini_free_tail2", "mini_free_all", "dir_ins_n3_s0_g1", "big_4096_to_100"],
     "C16": ["dirent_parse_storage_v3", "dirent_parse_stream_v3", "dirent_parse_root_v3", "dirent_parse_badtype_v3",
-            "alloc_validate_rel", "dirent_root_name_lower", "dirent_rt_root"],
-    "C17": ["dirent_rt_storage_2", "dirent_rt_root", "api_setters", "dir_ins_n3_s0_g1", "hdr_roundtrip"],
+            "alloc_validate_rel", "dirent_root_name_lower", "dirent_rt_root", "open_valid_permissive", "open_valid_strict"],
+    "C17": ["dirent_rt_storage_2", "dirent_rt_root", "api_setters", "dir_ins_n3_s0_g1", "hdr_roundtrip", "c13_dirent_fault_at3"],
     "C18": ["chunky_init_zero_one", "chunky_init_zero_intr", "chunky_init_fat_one", "chunky_dirent_one", "chunky_stor_first_one", "cache_c_write_longer_than_buffer_min",
             "cache_c_write_longer_than_buffer_b12", "cache_c_read_then_shrink_inside_window_min", "cache_c_read_then_shrink_inside_window_b32"],
 })
